@@ -72,9 +72,41 @@ def variant_atoms(mid, variant):
     return out
 
 
+def lys_variant(lys, variant):
+    out = [a.clone() for a in lys]
+    if variant == 'LYSs':
+        for a in out:
+            if a.name == 'NZ':
+                a.x += 200
+                a.y -= 150
+                a.z += 100
+    return out
+
+
+def lys_items(case, lys):
+    """The docked lysine: common, or (second varying residue) one full copy per (tag, variant) of case['lys']."""
+    if not case.get('lys'):
+        return [a.clone() for a in lys]
+    out = []
+    for tag, variant in case['lys']:
+        for a in lys_variant(lys, variant):
+            a.alt = tag
+            out.append(a)
+    return out
+
+
 def build(case, seed=0):
     pre, mid, post, lys = base_parts()
     pos = case.get('pos', 'middle')
+    twin = case.get('twin')
+    if twin == 'post':      # the following residue shares the number of the varying one: 2 / 2A
+        for a in post:
+            a.resnum, a.icode = 2, 'A'
+    elif twin == 'pre':     # the preceding residue shares it: 2 / 2A with the varying residue carrying the code
+        for a in pre:
+            a.resnum = 2
+        for a in mid:
+            a.icode = 'A'
     if pos == 'first':      # the varying residue is the N-terminal residue of the chain
         pre = []
     elif pos == 'last':     # ... or the C-terminal one (every variant carries OXT)
@@ -107,7 +139,7 @@ def build(case, seed=0):
                     continue
                 a.alt = tag
                 items.append(a)
-        items += [a.clone() for a in post] + ['TER\n'] + [a.clone() for a in lys] + ['TER\n']
+        items += [a.clone() for a in post] + ['TER\n'] + lys_items(case, lys) + ['TER\n']
     else:
         for num, variant in case['layout']:
             items.append('MODEL     %4d\n' % num)
@@ -314,6 +346,28 @@ def layouts(tier):
         for pos in ('first', 'middle', 'last'):
             cases.append(dict(kind='alt-atom', tags=list(tags), pos=pos, atom='N'))
             cases.append(dict(kind='alt-atom', tags=list(tags), pos=pos, atom='OXT' if pos == 'last' else 'CG'))
+    # a second varying residue: the docked lysine carries alternates of its own, with tag sets that need not match
+    t2 = (' ', 'A', 'B') if tier == 'quick' else (' ', 'A', 'B', 'C')
+    tagsets = [(t,) for t in t2] + [c for c in itertools.combinations(t2, 2) if len({LETTER[x] for x in c}) == 2]
+    for mt in tagsets:
+        for mvs in itertools.product(('ASP', 'ASPs', 'ALA'), repeat=len(mt)):
+            for lt in tagsets:
+                for lvs in itertools.product(('LYS', 'LYSs'), repeat=len(lt)):
+                    if len(mt) == 1 and len(lt) == 1 and tier == 'quick' and (mvs[0] != 'ASP' or lvs[0] != 'LYS'):
+                        continue
+                    cases.append(dict(kind='alt', layout=list(zip(mt, mvs)), lys=list(zip(lt, lvs))))
+    # a neighbour that differs from the varying residue only in its insertion code (2 / 2A)
+    for twin in ('post', 'pre'):
+        for tags in ((' ',), ('A', 'B'), ('B', 'C'), (' ', 'B'), ('A', 'B', 'C')):
+            for vs in itertools.product(('ASP', 'ASPs', 'ALA'), repeat=len(tags)):
+                cases.append(dict(kind='alt', layout=list(zip(tags, vs)), twin=twin))
+                if len(tags) == 2:
+                    cases.append(dict(kind='alt', layout=list(zip(tags, vs)), twin=twin, lys=[('A', 'LYS'), ('B', 'LYSs')]))
+        for nums in ((1, 2), (1, 2, 3)):
+            for vs in itertools.product(('ASP', 'ALA', 'ASPnoCG', 'absent'), repeat=len(nums)):
+                if all(x == 'absent' for x in vs):
+                    continue
+                cases.append(dict(kind='model', layout=list(zip(nums, vs)), twin=twin))
     mv = VARIANTS + ('absent',)
     for nums in ((1,), (1, 2), (2, 5), (1, 10), (1, 2, 3)):
         if tier == 'quick' and nums == (2, 5):
